@@ -224,6 +224,8 @@ inductive Ev
   | lDelete (id : Nat) (ok : Bool)
   | lDetach (id : Nat) (ok : Bool)
   | lEnd
+  -- daemon (pkg/eni/remote.go): does it accept the record for pod instance `u`?
+  | dAccept (u : Nat) (ok : Bool)
   deriving Repr
 
 /-! ### transitions -/
@@ -620,6 +622,17 @@ def stepL (s : St) : Ev → Option St
   | .lEnd => if s.l == .idle then none else some { s with l := .idle }
   | _ => none
 
+/-- the daemon takes the interfaces of a record only when it is bound, not being deleted, owned by the asking
+    pod instance and not empty (Remote.Allocate) -/
+def daemonAccepts (s : St) (u : Nat) : Bool :=
+  match s.rcd with
+  | some c => !c.del && c.phase == .bind && c.uid == u && !c.allocs.isEmpty
+  | none => false
+
+def stepD (s : St) : Ev → Option St
+  | .dAccept u ok => if ok == daemonAccepts s u then some s else none
+  | _ => none
+
 def step (s : St) (ev : Ev) : Option St :=
   match ev with
   | .podCreate .. | .podExit | .podRemove | .tick _ | .foreign _ => stepEnv s ev
@@ -629,6 +642,7 @@ def step (s : St) (ev : Ev) : Option St :=
   | .eCloudDelete .. | .eFinalize .. | .eGetPod _ | .eGetNode _ | .eAttach .. | .eStatusBind .. | .eDone => stepE s ev
   | .gList | .gGetPod _ | .gNodeErr | .gTouch _ | .gReap .. | .gEnd => stepG s ev
   | .lDescribe _ | .lList | .lDelete .. | .lDetach .. | .lEnd => stepL s ev
+  | .dAccept .. => stepD s ev
 
 /-- run a history; `none` when some event is not accepted -/
 def run (s : St) : List Ev → Option St
